@@ -193,6 +193,81 @@ DecParse(lit, k, posBound, negBound) ==
 \* negative side, where the exact bound depends on the fraction)
 MaxTimeMag == MaxI64 \o <<9, 9, 9, 9, 9, 9, 9, 9, 9>>
 
+\* ------------------------------------------------------------------ ISO 8601 durations (format iso8601)
+\* arithmetic on digit strings (TLC's integers end at 2^31)
+NatDigits(v) == LET cs == NatChars(v) IN [i \in 1..Len(cs) |-> cs[i] - 48]
+NormMag(d) == IF StripLeft(d) = <<>> THEN <<0>> ELSE StripLeft(d)
+DivSmall(mag, k) ==
+    LET r == FoldLeft(LAMBDA acc, d : LET cur == acc.r * 10 + d IN [q |-> Append(acc.q, cur \div k), r |-> cur % k],
+                      [q |-> <<>>, r |-> 0], mag) IN
+    [q |-> NormMag(r.q), r |-> r.r]
+MulSmall(mag, k) ==
+    LET n == Len(mag)
+        r == FoldLeft(LAMBDA acc, i : LET cur == mag[n + 1 - i] * k + acc.c IN [d |-> <<cur % 10>> \o acc.d, c |-> cur \div 10],
+                      [d |-> <<>>, c |-> 0], [i \in 1..n |-> i]) IN
+    NormMag((IF r.c = 0 THEN <<>> ELSE NatDigits(r.c)) \o r.d)
+AddMag(x, y) ==
+    LET n == IF Len(x) > Len(y) THEN Len(x) ELSE Len(y)
+        px == [i \in 1..(n - Len(x)) |-> 0] \o x
+        py == [i \in 1..(n - Len(y)) |-> 0] \o y
+        r == FoldLeft(LAMBDA acc, i : LET cur == px[n + 1 - i] + py[n + 1 - i] + acc.c IN [d |-> <<cur % 10>> \o acc.d, c |-> cur \div 10],
+                      [d |-> <<>>, c |-> 0], [i \in 1..n |-> i]) IN
+    NormMag((IF r.c = 0 THEN <<>> ELSE <<r.c>>) \o r.d)
+
+\* writing: PT, then the hours, minutes and seconds that are not zero - the seconds with the
+\* nanoseconds as a fraction without trailing zeros; a zero duration is PT0S
+IsoText(neg, mag) ==
+    IF mag = <<0>> THEN <<80, 84, 48, 83>>
+    ELSE LET digs == IF Len(mag) <= 9 THEN [i \in 1..(10 - Len(mag)) |-> 0] \o mag ELSE mag
+             secs == NormMag(SubSeq(digs, 1, Len(digs) - 9))
+             frac == StripRight(SubSeq(digs, Len(digs) - 8, Len(digs)))
+             ms == DivSmall(secs, 60)       \* minutes in all, seconds
+             hm == DivSmall(ms.q, 60) IN    \* hours, minutes
+         (IF neg THEN <<45>> ELSE <<>>) \o <<80, 84>>
+         \o (IF hm.q # <<0>> THEN Chars(hm.q) \o <<72>> ELSE <<>>)
+         \o (IF hm.r > 0 THEN NatChars(hm.r) \o <<77>> ELSE <<>>)
+         \o (IF ms.r > 0 \/ frac # <<>> THEN NatChars(ms.r) \o (IF frac = <<>> THEN <<>> ELSE <<46>> \o Chars(frac)) \o <<83>> ELSE <<>>)
+
+\* reading: an optional sign, P, T (the date part must be absent: years, months, weeks and days
+\* have no exact length and are refused), then hours, minutes, seconds in this order, each at most
+\* once, at least one; designators in either case; numbers with leading zeros; only the last number
+\* may have a fraction ('.' or ','), of which nine digits count for seconds.  (For hours and
+\* minutes the library multiplies the fraction in floating point; up to nine digits that is exact,
+\* and the drivers stay below.)  [ok, v]
+IsoUnit(c) == CASE c \in {72, 104} -> 1 [] c \in {77, 109} -> 2 [] c \in {83, 115} -> 3 [] OTHER -> 0
+IsoParse(s) ==
+    LET signed == s # <<>> /\ s[1] \in {43, 45}
+        neg == s # <<>> /\ s[1] = 45
+        body == IF signed THEN Tail(s) ELSE s
+        rest == SubSeq(body, 3, Len(body))
+        marks == {i \in 1..Len(rest) : ~IsDigit(rest[i]) /\ rest[i] \notin {46, 44}}
+        prevMark(i) == IF \E k \in marks : k < i THEN CHOOSE k \in marks : k < i /\ \A m \in marks : m < i => m <= k ELSE 0
+        num(i) == SubSeq(rest, prevMark(i) + 1, i - 1)
+        seps(x) == {k \in 1..Len(x) : x[k] \in {46, 44}}
+        whole(x) == IF seps(x) = {} THEN x ELSE SubSeq(x, 1, (CHOOSE k \in seps(x) : TRUE) - 1)
+        fracOf(x) == IF seps(x) = {} THEN <<>> ELSE SubSeq(x, (CHOOSE k \in seps(x) : TRUE) + 1, Len(x))
+        last == IF marks = {} THEN 0 ELSE CHOOSE k \in marks : \A m \in marks : m <= k
+        syntax == /\ Len(body) >= 3 /\ body[1] \in {80, 112} /\ body[2] \in {84, 116}
+                  /\ marks # {} /\ last = Len(rest)
+                  /\ \A i \in marks : IsoUnit(rest[i]) > 0
+                  /\ \A i, k \in marks : i < k => IsoUnit(rest[i]) < IsoUnit(rest[k])
+                  /\ \A i \in marks : LET x == num(i) IN
+                        /\ Cardinality(seps(x)) <= 1
+                        /\ whole(x) # <<>>
+                        /\ seps(x) # {} => (fracOf(x) # <<>> /\ i = last)
+        nanosOf(i) ==
+            LET x == num(i)
+                u == IsoUnit(rest[i])
+                w == NormMag([k \in 1..Len(whole(x)) |-> whole(x)[k] - 48])
+                f9 == [k \in 1..9 |-> IF k <= Len(fracOf(x)) THEN fracOf(x)[k] - 48 ELSE 0]
+                secs == IF u = 1 THEN MulSmall(w, 3600) ELSE IF u = 2 THEN MulSmall(w, 60) ELSE w
+                fr == IF u = 1 THEN MulSmall(NormMag(f9), 3600) ELSE IF u = 2 THEN MulSmall(NormMag(f9), 60) ELSE NormMag(f9) IN
+            AddMag(IF secs = <<0>> THEN <<0>> ELSE secs \o <<0, 0, 0, 0, 0, 0, 0, 0, 0>>, fr)
+        total == FoldLeft(LAMBDA acc, i : AddMag(acc, nanosOf(i)), <<0>>, SetToSortSeq(marks, <)) IN
+    IF ~syntax THEN [ok |-> FALSE]
+    ELSE IF ~MagLeq(total, IF neg THEN Pow2(63) ELSE MaxI64) THEN [ok |-> FALSE]
+    ELSE [ok |-> TRUE, v |-> [neg |-> neg /\ total # <<0>>, mag |-> total]]
+
 \* ------------------------------------------------------------------ Base 64 (RFC 4648 section 4)
 B64Char(i) == IF i < 26 THEN 65 + i ELSE IF i < 52 THEN 71 + i ELSE IF i < 62 THEN i - 4 ELSE IF i = 62 THEN 43 ELSE 47
 B64Val(c) == IF c \in 65..90 THEN c - 65 ELSE IF c \in 97..122 THEN c - 71 ELSE IF c \in 48..57 THEN c + 4
@@ -280,7 +355,6 @@ BaseDec(f, s) ==
 
 \* binary data as a list of numbers (format array)
 U8T == [k |-> "int", bits |-> 8, signed |-> FALSE]
-NatDigits(v) == LET cs == NatChars(v) IN [i \in 1..Len(cs) |-> cs[i] - 48]
 DigitsNat(d) == FoldLeft(LAMBDA acc, x : 10 * acc + x, 0, d)
 ListT(t) == IF t.k = "bytes" THEN [k |-> "slice", e |-> U8T] ELSE [k |-> "array", n |-> t.n, e |-> U8T]
 ListV(t, v) == LET es == [i \in 1..Len(v.b) |-> [neg |-> FALSE, mag |-> NatDigits(v.b[i])]] IN
@@ -306,6 +380,9 @@ Marshal(t, v, o, st) ==
     ELSE IF t.k = "str" THEN (IF st.tag THEN ERR ELSE [t |-> "str", s |-> v.s])
     ELSE IF t.k = "int" THEN NumJ(IntLit(v), o.sn \/ st.tag \/ st.key)
     \* a duration has no default representation; the decimal formats are numbers
+    \* (iso8601 is no number: always a string, and the `string` option is an error)
+    ELSE IF t.k = "dur" /\ st.fmt = "iso8601" THEN
+         (IF st.tag THEN ERR ELSE [t |-> "str", s |-> IsoText(v.neg, v.mag)])
     ELSE IF t.k = "dur" THEN
          (IF st.fmt \notin {"sec", "milli", "micro", "nano"} THEN ERR
           ELSE NumJ(DecText(v.neg, v.mag, FmtK(st.fmt)), o.sn \/ st.tag \/ st.key))
@@ -434,6 +511,11 @@ Unmarshal(t, old, j, o, st) ==
               IF r.ok THEN OK([nil |-> FALSE, e |-> r.v]) ELSE FAIL
     ELSE IF st.fmt # "" /\ ~KnownFmt(t, st.fmt) THEN FAIL
     ELSE IF t.k \notin {"int", "float", "dur", "time"} /\ st.tag THEN FAIL
+    ELSE IF t.k = "dur" /\ st.fmt = "iso8601" THEN
+         (IF st.tag THEN FAIL
+          ELSE IF j.t = "null" THEN OK(Zero(t))
+          ELSE IF j.t # "str" THEN FAIL
+          ELSE LET r == IsoParse(j.s) IN IF r.ok THEN OK(r.v) ELSE FAIL)
     ELSE IF t.k \in {"dur", "time"} /\ FmtK(st.fmt) < 0 THEN FAIL
     ELSE IF t.k \in {"dur", "time"} /\ (t.k = "dur") # (st.fmt \in {"sec", "milli", "micro", "nano"}) THEN FAIL
     ELSE IF j.t = "null" THEN OK(Zero(t))
